@@ -35,9 +35,15 @@ def _hist(draw, big):
     idx = st.integers(0, dim - 1)
     ops = draw(st.lists(st.tuples(idx, idx, st.integers(0, 20) | st.sampled_from([0, 1, 1, 5, 10])),
                         min_size=1, max_size=14 if not big else 24))
-    unit = draw(st.sampled_from([0.001, 0.002, 0.005, 0.01]))
+    # rate unit in 1/fs: from ordinary transfer rates down to very slow ones
+    unit = draw(st.sampled_from([0.001, 0.002, 0.005, 0.01, 0.001, 0.01, 1e-6, 1e-9, 1e-10]))
     p0 = draw(st.lists(st.integers(0, 5), min_size=dim, max_size=dim))
+    # some assignments are tiny relative refinements of the integer value (a re-fitted rate)
+    eps = draw(st.lists(st.sampled_from([0.0, 0.0, 0.0, 1e-7, -3e-6, 2e-9]), min_size=len(ops), max_size=len(ops)))
+    ops = [list(o) + [e] for o, e in zip(ops, eps)]
     return {"dim": dim, "ops": [list(o) for o in ops], "unit": unit, "p0": p0,
+            # how the initial populations are handed over: float array, integer array, list of Python ints
+            "p0_type": draw(st.sampled_from(["float", "float", "int", "list"])),
             "s0": draw(st.sampled_from([0, 0, 5, -4])),
             "dt": draw(st.sampled_from([0.25, 0.5, 1.0, 2.0])),
             "nt": draw(st.integers(5, 60 if not big else 200)),
@@ -69,8 +75,9 @@ def check_case(case, ctx):
     model = {}
     overwritten = False
     scale = 20 * unit
-    for step, (i, j, v) in enumerate(case["ops"]):
-        val = v * unit
+    for step, op in enumerate(case["ops"]):
+        i, j, v = op[0], op[1], op[2]
+        val = v * unit * (1.0 + (op[3] if len(op) > 3 else 0.0))
         before = numpy.array(R.data, copy=True)
         if i == j:
             try:
@@ -105,7 +112,10 @@ def check_case(case, ctx):
     ok, prop = guarded(ctx, "propagate", lambda: PopulationPropagator(ta, rate_matrix=R))
     if not ok:
         return
-    ok, pops = guarded(ctx, "propagate", lambda: prop.propagate(p0))
+    pt = case.get("p0_type", "float")
+    p0_arg = p0 if pt == "float" else (numpy.array(case["p0"], dtype=int) if pt == "int" else [int(x) for x in case["p0"]])
+    ctx.label("p0:" + pt)
+    ok, pops = guarded(ctx, "propagate", lambda: prop.propagate(p0_arg))
     if ok:
         pops = numpy.asarray(pops)
         E = scipy.linalg.expm(K * dt)
